@@ -59,6 +59,7 @@ props! {
     "C06" => c06,
     "C07" => c07,
     "C08" => c08,
+    "C09" => c09,
     "C11" => c11,
     "C12" => c12,
     "C16" => c16,
